@@ -39,7 +39,7 @@ def plan(ctx):
                               bounds="three calls; indexes 64-bit symbolic; 2-byte shards", flags=FULL, timeout=900, mem_gb=6, symbolic="both indexes, shard bytes", tiers=tiers))
         elif m["kind"] == "deleg_enc":
             hs.append(Harness(f"gen::c09g::{m['name']}", "C09",
-                              f"DefaultRateEncoder ({m['k']},{m['r']}) vs dedicated {m['rate']}-rate encoder: add (Ok), add with length {m['ln']}, encode with too few: identical Results and identical state",
+                              f"DefaultRateEncoder ({m['k']},{m['r']}) vs dedicated {m['rate']}-rate encoder: add (Ok), add with length {m['ln']}, add again: identical Results and identical state",
                               encodes=["DefaultRateEncoder::add_original_shard/encode (match arms)", "EncoderWork::add_original_shard/encode_begin"],
                               bounds="three calls; 2-byte shards", flags=FULL, timeout=900, mem_gb=6, symbolic="shard bytes", tiers=tiers))
         else:
